@@ -43,6 +43,11 @@ func checkPanics(r *vkit.Run) {
 	r.Count("bfe_H2PanicConn", st.H2PanicConn.Get())
 	r.Count("bfe_H2PanicStream", st.H2PanicStream.Get())
 	exp := atomic.LoadInt64(&expectedHandlerPanics)
+	// bfe bumps H2PanicStream at the very end of runHandler's deferred function, after the harness
+	// handler has been left: give the last handler goroutines a moment to get there
+	for i := 0; i < 5000 && st.H2PanicStream.Get() != exp; i++ {
+		time.Sleep(time.Millisecond)
+	}
 	r.Count("handler_panics_provoked_on_purpose", exp)
 	if int(atomic.LoadInt32(&panicSeen)) >= len(ps) && st.H2PanicStream.Get() == exp {
 		return
